@@ -120,6 +120,14 @@ CLAIMED['C15'] = dict(
          'convert_negative yields -magnitude exactly and without undefined behaviour (defect D14 found by this check and fixed).',
     ref='5/C15, 4.8')
 
+CLAIMED['C18'] = dict(
+    technique='path enumeration with RAII/exception semantics, symbolic counter and window (zone constraints, memoised arithmetic provenance)',
+    text='limit_depth: on every path of every instantiation (both apply modes - actions disabled sections included - and both rewind modes) the depth counter is incremented before the guarded match '
+         'and restored on success, local failure and exception by the guard destructor; the error is raised iff the depth after the increment exceeds Maximum (exactly Maximum levels). limit_bytes: '
+         'the temporary end is current() + min(size(), Maximum) - counted from where the match starts, wherever that is - the guarded rule sees it, and the saved end is restored on every completion; '
+         'neither guard can be copied or moved. Inspection beyond the window is excluded by C03.',
+    ref='5/C18')
+
 NOT_YET = 'check not built yet in this round (see DESIGN.md section 10 for the order of construction); no claim is made'
 
 NA_REASONS = {}
